@@ -75,6 +75,64 @@ func runC11(r *Report) {
 			dispatch = append(dispatch, ci)
 		}
 	})
+	// dispatch may be split over helpers of the session manager (`dispatchCommandResponse`,
+	// `dispatchCommandRequest`): a callee that itself dispatches to two or more handlers is a dispatch
+	// helper; its dispatch sites are gated when every call of the helper is
+	isDispatchCall := func(ci ssa.CallInstruction) bool {
+		c := CalleeOf(ci)
+		if c.Recv == "SessionManager" && (strings.HasPrefix(c.Name, "Handle") || strings.HasPrefix(c.Name, "handle")) && c.Name != "handleCommandPacket" {
+			return true
+		}
+		return c.Name == "Execute" && ci.Common().IsInvoke()
+	}
+	viaHelper := map[ssa.CallInstruction]ssa.CallInstruction{}
+	{
+		var direct []ssa.CallInstruction
+		seenH := map[*ssa.Function]bool{hc: true}
+		var expand func(from *ssa.Function, outer ssa.CallInstruction, depth int)
+		expand = func(from *ssa.Function, outer ssa.CallInstruction, depth int) {
+			Instrs(from, func(in ssa.Instruction) {
+				ci, ok := in.(*ssa.Call)
+				if !ok {
+					return
+				}
+				h := ci.Common().StaticCallee()
+				if h == nil || h.Pkg != hc.Pkg || len(h.Blocks) == 0 || seenH[h] || depth <= 0 {
+					return
+				}
+				n := 0
+				Instrs(h, func(in2 ssa.Instruction) {
+					if c2, ok := in2.(ssa.CallInstruction); ok && isDispatchCall(c2) {
+						n++
+					}
+				})
+				if n < 2 {
+					return
+				}
+				seenH[h] = true
+				top := outer
+				if top == nil {
+					top = ci
+				}
+				Instrs(h, func(in2 ssa.Instruction) {
+					if c2, ok := in2.(ssa.CallInstruction); ok && isDispatchCall(c2) {
+						direct = append(direct, c2)
+						viaHelper[c2] = top
+					}
+				})
+				// the helper call itself is no dispatch site
+				for i, d := range dispatch {
+					if d == ssa.CallInstruction(ci) {
+						dispatch = append(dispatch[:i], dispatch[i+1:]...)
+						break
+					}
+				}
+				expand(h, top, depth-1)
+			})
+		}
+		expand(hc, nil, 2)
+		dispatch = append(dispatch, direct...)
+	}
 	if len(dispatch) < 3 { // alarm below 40% of the 9 sites confirmed by hand
 		r.Fail("R-C11-0", hc.Pos(), fmt.Sprintf("only %d command dispatch sites found (10 confirmed by hand)", len(dispatch)), "handleCommandPacket", "floor")
 	}
@@ -102,7 +160,19 @@ func runC11(r *Report) {
 		return false
 	}
 	for _, d := range dispatch {
-		r.Ob("R-C11-0", CallPos(d), gated(d.Block()), "dispatch to "+CalleeOf(d).Name+" happens only for a connection with an authenticated client id (> 0) of this packet's connection", "handleCommandPacket", "gated:"+CalleeOf(d).Name)
+		ok := gated(d.Block())
+		if top := viaHelper[d]; top != nil {
+			// inside a dispatch helper: every call of the helper (all of them in handleCommandPacket) is gated
+			ok = gated(top.Block())
+			if h := d.Parent(); h != nil {
+				for _, site := range staticCallSites(r.P, Outermost(h)) {
+					if Outermost(site.Parent()) != hc && !seenDispatchHelper(viaHelper, site.Parent()) {
+						ok = false
+					}
+				}
+			}
+		}
+		r.Ob("R-C11-0", CallPos(d), ok, "dispatch to "+CalleeOf(d).Name+" happens only for a connection with an authenticated client id (> 0) of this packet's connection", "handleCommandPacket", "gated:"+CalleeOf(d).Name)
 	}
 
 	// ---- R-C11-1 untrusted fields are inert ------------------------------------------------
@@ -683,4 +753,14 @@ func partyPredicateArgs(pc *ssa.Call, idMatch string) int {
 		return 0
 	}
 	return len(partyIdx)
+}
+
+// seenDispatchHelper: f is one of the dispatch helpers already reached from handleCommandPacket.
+func seenDispatchHelper(via map[ssa.CallInstruction]ssa.CallInstruction, f *ssa.Function) bool {
+	for d := range via {
+		if Outermost(d.Parent()) == Outermost(f) {
+			return true
+		}
+	}
+	return false
 }
